@@ -1,7 +1,6 @@
 SPECIFICATION Spec
 CONSTANTS
-  Strs <- MCStrs
-  Delims <- MCDelims
+  Pairs <- MCPairs
   MaxChars = 4
 VIEW View
 INVARIANTS WindowInv Refines RemainderInv InitialSeqs EndsAgree EmitInv
